@@ -38,7 +38,7 @@ pub struct Locks {
 
 const OP_STEP_BOUND: u64 = 200_000;
 
-fn cyclic_ws(rng: &mut Rng) -> WsSpec {
+pub fn cyclic_ws(rng: &mut Rng) -> WsSpec {
     let mut spec = match rng.below(3) {
         0 => ring_ws(rng),
         _ => {
@@ -64,6 +64,13 @@ fn cyclic_ws(rng: &mut Rng) -> WsSpec {
         spec.files.push(PyFile { rel: "selfimp/conftest.py".into(), items });
         spec.files.push(PyFile { rel: "selfimp/__init__.py".into(), items: vec![Item::Star { module: ".conftest".into(), target: None }] });
         spec.files.push(PyFile { rel: "selfimp/test_loop.py".into(), items: vec![Item::Test(Tst { name: "test_l".into(), params: vec!["loop_a".into(), "loop_b".into()], ..Default::default() })] });
+    }
+    // two modules naming each other in pytest_plugins
+    if rng.chance(500) {
+        spec.files.push(PyFile { rel: "plug_a.py".into(), items: vec![Item::Plugins { modules: vec!["plug_b".into()], targets: vec![Some("plug_b.py".into())] }, Item::Fixture(Fx { func: "from_a".into(), ..Default::default() })] });
+        spec.files.push(PyFile { rel: "plug_b.py".into(), items: vec![Item::Plugins { modules: vec!["plug_a".into()], targets: vec![Some("plug_a.py".into())] }, Item::Fixture(Fx { func: "from_b".into(), ..Default::default() })] });
+        spec.files.push(PyFile { rel: "plugs/conftest.py".into(), items: vec![Item::Plugins { modules: vec!["plug_a".into()], targets: vec![Some("plug_a.py".into())] }] });
+        spec.files.push(PyFile { rel: "plugs/test_plugs.py".into(), items: vec![Item::Test(Tst { name: "test_p".into(), params: vec!["from_a".into(), "from_b".into()], ..Default::default() })] });
     }
     // arbitrarily deep directory chain
     if rng.chance(400) {
